@@ -245,7 +245,11 @@ func LockThenBreak(cl *qsim.Cluster, track func()) string {
 // prepare a different value v' that is legitimately justified by a quorum of UNPREPARED round-changes (theirs plus the
 // Byzantine ones; a's prepared round-change arrives late). Commits are lost. Result: correct operators prepared on two
 // values in different rounds - reachable with asynchrony and <= f Byzantine operators that follow the message grammar.
-func SplitPrepare(cl *qsim.Cluster, track func()) bool {
+func SplitPrepare(cl *qsim.Cluster, track func()) bool { return SplitPrepareUpTo(cl, track, false) }
+
+// SplitPrepareUpTo with early = true stops right after the round-2 leader has received its quorum of unprepared round-changes:
+// if that leader is correct its proposal is in flight to everybody, including the operator that prepared alone in round 1.
+func SplitPrepareUpTo(cl *qsim.Cluster, track func(), early bool) bool {
 	n, h := cl.Cfg.N, cl.Cfg.Height
 	hon, byz := cl.Honest(), cl.ByzNodes()
 	if len(byz) == 0 {
@@ -303,6 +307,31 @@ func SplitPrepare(cl *qsim.Cluster, track func()) bool {
 	cl.DeliverWhere(func(f *qsim.Flight) bool {
 		return f.To != a.ID && f.From != a.ID && f.Msg.Message.MsgType == specqbft.RoundChangeMsgType && f.Msg.Message.Round == 2
 	}, track)
+	if early {
+		if l2.Byz {
+			return false
+		}
+		cl.Act("split-prepare (early cut): n%d prepared alone on %s in round 1, the round-2 leader n%d has a quorum of unprepared round-changes", a.ID, v[:2], l2.ID)
+		if cl.Rng.Intn(2) == 0 {
+			// round 2 goes on with complete delivery of the correct leader's proposal and of the prepares (the Byzantine operators
+			// prepare it too); only the commits are lost
+			cl.DeliverWhere(isT(specqbft.ProposalMsgType), track)
+			var vp []byte
+			for _, x := range others {
+				if st := x.Inst(); st != nil && st.ProposalAcceptedForCurrentRound != nil && st.Round == 2 {
+					vp = st.ProposalAcceptedForCurrentRound.FullData
+				}
+			}
+			if vp != nil {
+				for _, z := range byz {
+					cl.ByzSendTo(z, cl.MkSimple(z, specqbft.PrepareMsgType, 2, qsim.Root(vp)), "prepare", hon)
+				}
+				cl.DeliverWhere(isT(specqbft.PrepareMsgType), track)
+			}
+			cl.DropWhere(func(f *qsim.Flight) bool { return f.Msg.Message.MsgType == specqbft.CommitMsgType })
+		}
+		return true
+	}
 	if l2.Byz {
 		var vp []byte
 		for _, x := range cl.Values {
